@@ -190,6 +190,10 @@ def random_series(seed, big=False):
         # unequal, arbitrary steps; the largest speed of the step lies between 0.2 and 10 (fixed-point range)
         dt = min(max(maxd / rng.uniform(0.2, 10.0), 0.05), 40.0)
         times.append(times[-1] + dt)
+    if nf >= 2 and rng.random() < 0.25:
+        # the origin of time is arbitrary: one frame OTHER than the first carries the stamp exactly 0.0
+        j = rng.randrange(1, nf)
+        times = [t_ - times[j] for t_ in times]
     # fresh mesh per frame, independent numbering
     descs, ids = [], []
     for f in range(nf):
